@@ -18,6 +18,8 @@ func runC12(c *core.Ctx) {
 		RunDistributionParams(c)
 	case "model-constructors":
 		RunModelConstructors(c)
+	case "model-read-only":
+		RunModelReadOnly(c)
 	case "read-only-slices":
 		RunSparseConst(c)
 	default:
@@ -121,6 +123,7 @@ func init() {
 			{Name: "scalar-clones", Weight: 1},
 			{Name: "distribution-parameters", Weight: 1},
 			{Name: "model-constructors", Weight: 1},
+			{Name: "model-read-only", Weight: 1},
 			{Name: "read-only-slices", Weight: 1},
 		},
 		Run:      runC12,
